@@ -71,6 +71,7 @@ func moreFacts(b *strings.Builder, root *pkgFiles, repo string) {
 	signingFacts(b, root, repo)
 	templateFacts(b, repo)
 	trackerFacts(b, repo)
+	lockFacts(b, repo)
 }
 
 // dsigConstants resolves the string constants of the goxmldsig module the repository builds against.
